@@ -55,7 +55,7 @@ def run(ctx):
     key = bytes(rng.getrandbits(8) for _ in range(48))
     dist = {"boundary": 0, "random": 0, "edge": 0, "cross": 0, "realm": 0, "carried": 0}
 
-    def one(cr, max_ttl, req_ttl, time0, t1, kind, realm=b""):
+    def one(cr, max_ttl, req_ttl, time0, t1, kind, realm=b"", retry=0):
         if not (1 <= time0 < M32 and 1 <= t1 < M32):
             return
         cr.set_clock(time0)
@@ -74,8 +74,8 @@ def run(ctx):
                           "cred_hex": r["data"].hex()})
             return
         cr.set_clock(t1)
-        d, m, diff = cr.decode_both(r["data"])
-        ctx.count((max_ttl, req_ttl, time0, t1))
+        d, m, diff = cr.decode_both(r["data"], retry=retry)
+        ctx.count((max_ttl, req_ttl, time0, t1, retry))
         dist[kind] += 1
         if diff:
             mism.append(cr.mismatches[-1])
@@ -84,9 +84,10 @@ def run(ctx):
             return
         want, wttl = expected(time0, cttl, max_ttl, t1)
         if d["error_num"] != want or d["ttl"] != wttl or (d["data"] != b"w") or d["time0"] != time0 or d["time1"] != t1:
-            fails.append({"why": "decode at t1=%d of a credential encoded at time0=%d with ttl=%d under --max-ttl=%d: "
-                                 "daemon says error %d (%s) ttl=%d, property says error %d ttl=%d"
-                                 % (t1, time0, cttl, max_ttl, d["error_num"], d["error_str"], d["ttl"], want, wttl),
+            fails.append({"why": "decode%s at t1=%d of a credential encoded at time0=%d with ttl=%d under --max-ttl=%d: "
+                                 "daemon says error %d (%s) ttl=%d decode time %d, property says error %d ttl=%d decode time %d"
+                                 % ((" (request header flagged retry=%d)" % retry) if retry else "", t1, time0, cttl, max_ttl, d["error_num"],
+                                    d["error_str"], d["ttl"], d["time1"], want, wttl, t1), "retry": retry,
                           "max_ttl": max_ttl, "req_ttl": req_ttl, "time0": time0, "t1": t1,
                           "finding_key": ("F-C06-wrap-low" if time0 < cttl else "F-C06-wrap-high" if time0 + cttl >= M32 else None)})
         if want in (15, 16):
@@ -127,6 +128,10 @@ def run(ctx):
                 tmin, tmax = time0 - cttl, time0 + cttl
                 for t1 in sorted(set([tmin - 1, tmin, tmin + 1, time0 - 1, time0, time0 + 1, tmax - 1, tmax, tmax + 1])):
                     one(cr, mt, req_ttl, time0, t1, "boundary")
+                # the window is the same whatever the request HEADER says: a first presentation flagged as a transport retry
+                if time0 == time0s[0]:
+                    for t1, rt in ((tmin - 1, 5), (tmin, 5), (tmin + 1, 2), (tmax, 1), (tmax + 1, 1), (tmax + 2, 3), (tmax + 9, 5), (tmax + 10, 5)):
+                        one(cr, mt, req_ttl, time0, t1, "boundary", retry=rt)
                 for _ in range(6 if ctx.thorough else 2):
                     one(cr, mt, req_ttl, time0, time0 + rng.randrange(-3 * cttl - 2, 3 * cttl + 3), "random")
         # the same whatever else the request carries: a realm, restrictions (nothing but the TTL word decides the TTL)
